@@ -206,6 +206,15 @@ def check(case, ctx):
             ctx.close("mahal-sqrt", M[j] ** 2, M2[j], t2, "squared flag")
             ctx.close("mahal-stack-independent", singles[j][0], M[j], 1e-12 * (np.sqrt(ref2.max()) + 1e-300),
                       "stack entry vs single matrix")
+        # a cell so roomy that no separation is folded (every |x - y| component < 0.4 cell side, sides of different length)
+        # leaves every Mahalanobis distance as it is without a cell, whatever the precision
+        roomy = 2.5 * np.abs(diff).reshape(-1, d).max(0) + 1.0 + np.arange(d)
+        with ctx.lib("mahalanobis(roomy cell)"):
+            Mr2 = pmd(X, Y, P, cell_length=roomy, squared=True)
+        for j in range(len(P)):
+            ref2 = ((diff @ L[j]) ** 2).sum(-1)
+            ctx.close("mahal-roomy-cell", Mr2[j], ref2, 1e-11 * (maxabs ** 2) * np.linalg.norm(P[j], 2) * d + 1e-300,
+                      "squared Mahalanobis with a cell that folds nothing vs |L^T(x-y)|^2")
         ctx.true("mahal-nonneg", bool(np.all(M >= 0)) and bool(np.all(np.isfinite(M))), "negative or NaN")
         ctx.close("mahal-identity", Mi[0] ** 2, D ** 2, 2 * tol * (D.max() + tol) * 4 + 1e-15 * D.max() ** 2,
                   "identity precision with cell vs periodic Euclidean")
